@@ -44,6 +44,42 @@ CHECKS.update({
          "DESIGN.md 5 (C19), 4.A, 4.E"),
 })
 
+E2E_NOTE = "hyper 1.6 / h2 0.4 / rustls 0.23 are exercised as peers, not verified; network, handler and clock are the simulator's; hyper's Date header (real wall clock) is switched off; DNS/TCP/Unix sockets not run"
+def e2e(engine, cat, tech, text, ref, note=E2E_NOTE):
+    return (engine, cat, tech, text, note, ref)
+CHECKS.update({
+ "C01": e2e("e2esim", "exploration",
+   "deterministic simulation: real client stack and real servers over SimNet (seeded chunking, Pending, virtual delays, EOF/reset at byte offsets, refused dials), seeded request mixes with cancels; per-request identity/digest oracle at handler and client",
+   "Every request carries its id three times (path, header, body pattern); the handler checks what it receives, the client checks status, headers and every body byte of what it gets back, over HTTP/1.1, HTTP/2, TLS+ALPN, pooled reuse, concurrency, upgrades and cancels at every stage. Fault-free runs: every un-cancelled request must succeed; faulty runs: a failure is excused only by a transport fault on a connection of that origin; wrong or truncated data never.",
+   "DESIGN.md 5 (C01), 4.B"),
+ "C07": e2e("shutdown", "exploration",
+   "deterministic simulation: graceful-shutdown signal at a seeded virtual instant against 0-4 connections in every stage; history oracle relative to the signal instant; executor wrapper counts connection tasks",
+   "Serving future Ok(()) exactly at the signal; nothing connected afterwards is served; every request whose handler had started completes correctly; every connection closed by the server and its task finished within 1 s (5 s with I/O delays) of its last exchange; idle and still-sniffing connections closed. http1 / http2 / auto.",
+   "DESIGN.md 5 (C07), 4.B"),
+ "C08": e2e("sniff", "fault_enumeration",
+   "deterministic simulation with enumerated fragmentation: every single cut position (all streams) and every pair of cut positions (HTTP/2 preface; all streams in thorough) of the first 32 bytes, byte-at-a-time, plus seeded cut sets with short reads / Pending / delays; differential oracle against plain hyper on the unfragmented stream",
+   "Version seen by the handler is HTTP/2 iff the stream starts with the full preface; the response equals what plain hyper http1 / http2 answers to the same bytes; bodies longer than the sniff buffer are verified byte for byte behind the detector.",
+   "DESIGN.md 5 (C08), 4.B"),
+ "C09": e2e("srvfault", "fault_enumeration",
+   "deterministic simulation with enumerated fault kind x stage (cancelled connect, connect-then-close, garbage, head/body truncated at offsets, client gone mid-response, handler error, TLS garbage / plaintext / ClientHello truncated or stalled at offsets) x {SimNet, hyperdriver duplex} x {plain, TLS} x {auto, http1}, plus seeded fault sequences interleaved with well-behaved clients",
+   "After every fault sequence the serving future is still pending, and every well-behaved client on its own connection (bystanders during the faults, a probe afterwards) gets its complete correct response within 30 s of virtual time.",
+   "DESIGN.md 5 (C09), 4.B",
+   E2E_NOTE + "; TCP and Unix acceptors need kernel sockets and are not run; handler panics out of scope"),
+ "C12": e2e("tlsmode", "fault_enumeration",
+   "deterministic simulation with enumerated scheme x host form x certificate x peer behaviour (incl. the genuine TLS server flight truncated at 40 offsets, closing or stalling) through TlsTransport and through the whole client stack; raw first bytes captured at the peer, SNI captured by a recording certificate resolver, certificate validity against a simulated wall clock",
+   "https/wss: the peer's first bytes are a TLS handshake record, SNI = URI host (none for IP literals), success iff the certificate is valid for the URI host and the peer completes a genuine handshake; any failure is an Err with exactly one dial and no request reaching a handler; other schemes go out in clear; no host form panics.",
+   "DESIGN.md 5 (C12), 4.B"),
+ "C13": e2e("wire", "exploration",
+   "deterministic simulation: grammar-drawn requests through the whole client stack with a seeded pool history so that request version and connection protocol differ; what hyper's server parsed from the wire is compared with a reference function of (request, connection protocol)",
+   "Connection protocol = f(version of the dialing request, ALPN); HTTP/1: origin-form target byte-identical incl. empty path -> '/', authority-form for CONNECT, Host derived from the URI (port unless default) unless supplied; HTTP/2: no Host, no connection-specific headers, CONNECT rejected with InvalidMethod before anything is sent. The input-only part is as strong as the grammar sweep, no stronger.",
+   "DESIGN.md 5 (C13), 4.B"),
+})
+CHECKS["C17"] = ("poolsim+grammar+e2esim", "exploration",
+   "deterministic simulation with a process-wide panic monitor: (1) pool step lists incl. every http::Version constant, (2) the full cross product version x method x URI form x {Client, Client without pool, ConnectorService, ConnectorService over a URI-agnostic transport} x {plain, TLS} against real servers, (3) the ordinary end-to-end workload",
+   "No panic in the caller's task nor in any library-spawned task (debug assertions on), and every call resolves with a response or an error within a minute of virtual time.",
+   "hyper/h2/rustls exercised not verified; TcpTransport::get_host_and_port sits behind kernel sockets and is not run",
+   "DESIGN.md 5 (C17)")
+
 NOT_APPLICABLE = {
  "C16": "pure function of an address list and a preference (SocketAddrs::sort_preferred / set_port): no schedule, clock, fault or I/O for a simulator to own; the start-order clause is the C11 start-order rule composed with a FIFO pop; the end-to-end variant needs kernel sockets, which have no seam. See DESIGN.md 6.",
  "C20": "pure function of one request and one TlsConnectionInfo (sni::handle): quantifier over inputs only, nothing for deterministic simulation to schedule or fault. See DESIGN.md 6.",
